@@ -63,7 +63,7 @@ P = {
         "budget_s": {"quick": 200, "thorough": 3300},
         "rule": "one scenario = 1-3 services of the registry (every director-less service in rotation) + an echo liveness port, 1-4 interleaved connections per service instance each carrying a grammar dialogue, a truncation/mutation of one (length fields, reordering, repetition, out-of-state commands) or raw bytes (<=64 KiB) under seeded segmentation, ended by close / reset / half-close / silence past the idle deadline / a stalled peer; distinct = distinct trace digest; non-trivial = several connections, a mutated input or a fault",
         "components": comp(real=["all 24 director-less services (real handlers)", "per-connection recover in server.handle"]),
-        "assumptions": ["process-level outcomes (exit status, panic:/fatal error: banner, CPU seconds and RSS per step) are observed by the driver from outside the worker", "interleavings finer than one delivered segment only through same-step batch release"],
+        "assumptions": ["process-level outcomes (exit status, panic:/fatal error: banner, CPU seconds and RSS per step) are observed by the driver from outside the worker", "interleavings finer than one delivered segment only through same-step batch release and the build-time yield points", "race tier: a second binary built with -race; only map-vs-map races between handlers of one scenario that replay alone are violations"],
         "stall_s": 25,
         "rss_mb": 2500,
         "single_timeout": 240,
@@ -134,7 +134,7 @@ P = {
         "runs": {"quick": 3000, "thorough": 300000},
         "budget_s": {"quick": 200, "thorough": 3300},
         "rule": "one scenario = 1-3 logged-in sessions on one ftp service instance, interleaved by the choice tape, each issuing 1-12 of CWD/CDUP/PWD/MKD/RMD/DELE/RNFR+RNTO/STOR/APPE/RETR/LIST/NLST/MDTM/SIZE/STAT (and X-variants) with path arguments built from {a, b, .., ., '', SENTINEL, secret.txt} (1-5 components, absolute/relative, trailing separator) or from a list of odd paths; transfers open passive data connections over the simulated transport, some reset mid-transfer; a sentinel tree with unique contents is planted beside the service root on the real temp filesystem; distinct = distinct trace digest; non-trivial = always (every session changes directories or touches paths)",
-        "components": comp(real=["services/ftp (commands, passive sockets over simnet), services/filesystem Htfs RealPath/ChangeDir on a real temp dir"]),
+        "components": comp(real=["services/ftp (commands, passive sockets over simnet, TLS on the data connection), services/filesystem Htfs RealPath/ChangeDir on a real temp dir"], stub=["crypto/tls client on the data connection, inside the bubble"]),
         "assumptions": ["the root contains no symlinks leaving it (none are planted)", "path mapping is sequential logic; the simulator contributes interleaved sessions and transfer faults"],
     },
     "C05": {
@@ -169,8 +169,8 @@ P = {
         "runs": {"quick": 3000, "thorough": 300000},
         "budget_s": {"quick": 200, "thorough": 3300},
         "rule": "one scenario = http-proxy, copy (tcp or udp) or dns-proxy configured with the real forward director (host with or without port) and 1-3 clients each performing 1-4 exchanges: HTTP requests (7 methods, repeated header names, bodies up to 64 KiB, content-length or chunked, lock-step or pipelined, seeded segmentation) answered by a scripted backend inside the bubble with seeded segmentation of the reply; raw streams answered by a byte-transforming backend; datagrams / DNS queries answered by a UDP backend; a decoy backend on another address; optionally the backend refuses the connection or closes mid-reply; distinct = distinct trace digest; non-trivial = several clients or a segmented/pipelined request",
-        "components": comp(real=["services http-proxy, copy, dns-proxy; director/forward (dial through the simulated kernel)"], stub=["scripted HTTP / raw / UDP backends and a decoy inside the bubble"]),
-        "assumptions": ["ssh-proxy is not covered yet", "Content-Length / Transfer-Encoding framing may be re-done by the proxy; everything else of a message must be unchanged"],
+        "components": comp(real=["services http-proxy, copy, dns-proxy, ssh-proxy; director/forward (dial through the simulated kernel)"], stub=["scripted HTTP / raw / UDP backends and a decoy inside the bubble", "ssh mode (every sixth scenario): x/crypto/ssh server as backend and x/crypto/ssh clients as attackers, inside the bubble"]),
+        "assumptions": ["ssh mode: one session channel per client; public-key authentication is not exercised", "Content-Length / Transfer-Encoding framing may be re-done by the proxy; everything else of a message must be unchanged"],
     },
 }
 
